@@ -14,7 +14,7 @@ Open Scope Z_scope.
    some documented requirement is violated  <->  Start returns 1, having started nothing (and so: no panic). *)
 Theorem C19_refuse_iff_invalid : forall (o : order) (c : config) (a : app_state),
   order_ok o c ->
-  (requirements c <> [] <-> start o c a = Returned 1 nothing_started).
+  (requirements c <> [] <-> start o c a = Returned 1 nothing_started no_listener).
 Proof. exact refuse_iff_invalid. Qed.
 Print Assumptions C19_refuse_iff_invalid.
 
@@ -34,10 +34,23 @@ Print Assumptions C19_accept_iff_valid.
    result is 0 or 1 (1 = a subsystem failed at start time, e.g. unreachable brokers), and 0 means everything was started. *)
 Theorem C19_valid_is_started : forall (o : order) (c : config) (a : app_state),
   order_ok o c -> requirements c = [] ->
-  exists rc started, start o c a = Returned rc started /\ (rc = 0 \/ rc = 1) /\ started <> [] /\
+  exists rc started, start o c a = Returned rc started no_listener /\ (rc = 0 \/ rc = 1) /\ started <> [] /\
                      (forall k, In k started -> In k (coordinators c)) /\ (rc = 0 -> started = coordinators c).
 Proof. exact valid_is_started. Qed.
 Print Assumptions C19_valid_is_started.
+
+(* Listeners ("listeners opened" is what the property observes): a refused configuration leaves no listening socket behind
+   — none is bound by any Configure — and indeed no Start that returns leaves one (what was started has been stopped). *)
+Theorem C19_refused_opens_no_listener : forall (o : order) (c : config) (a : app_state) (rc : Z) (started : list coord) (ls : list str),
+  order_ok o c -> requirements c <> [] ->
+  start o c a = Returned rc started ls -> ls = no_listener /\ started = nothing_started /\ rc = 1.
+Proof. exact refused_opens_no_listener. Qed.
+Print Assumptions C19_refused_opens_no_listener.
+
+Theorem C19_no_listener_left_open : forall (o : order) (c : config) (a : app_state) (rc : Z) (started : list coord) (ls : list str),
+  start o c a = Returned rc started ls -> ls = no_listener.
+Proof. exact no_listener_left_open. Qed.
+Print Assumptions C19_no_listener_left_open.
 
 (* The caller's context is irrelevant: the outcome of Start and the flag it leaves behind are the same from every
    initial state — in particular from the state any history of earlier Start calls on the same context left behind. *)
@@ -91,7 +104,7 @@ Print Assumptions C19_old_handler_never_refuses.
 
 Theorem C19_old_handler_refuse_refuted :
   exists o c, order_ok o c /\ requirements c <> [] /\
-              forall a, start_old o c a <> Returned 1 nothing_started /\ exists p, start_old o c a = Panicked p.
+              forall a, start_old o c a <> Returned 1 nothing_started no_listener /\ exists p, start_old o c a = Panicked p.
 Proof. exact refuse_refuted. Qed.
 Print Assumptions C19_old_handler_refuse_refuted.
 
@@ -105,7 +118,7 @@ Proof. exact noreset_handler_same_on_fresh. Qed.
 Print Assumptions C19_noreset_handler_same_on_fresh.
 
 Theorem C19_noreset_handler_never_refuses_used : forall (o : order) (c : config),
-  start_with handler_noreset o c used_app <> Returned 1 nothing_started /\
+  start_with handler_noreset o c used_app <> Returned 1 nothing_started no_listener /\
   config_valid_with handler_noreset o c used_app = true.
 Proof. exact noreset_handler_never_refuses_used. Qed.
 Print Assumptions C19_noreset_handler_never_refuses_used.
@@ -116,7 +129,7 @@ Print Assumptions C19_noreset_handler_never_refuses_used.
 Example C19_example_valid :
   requirements ex_valid = [] /\
   start (canonical_order ex_valid) ex_valid fresh_app
-    = Returned 0 [CZookeeper; CStorage; CEvaluator; CHttpserver; CNotifier; CCluster; CConsumer] /\
+    = Returned 0 [CZookeeper; CStorage; CEvaluator; CHttpserver; CNotifier; CCluster; CConsumer] no_listener /\
   config_valid (canonical_order ex_valid) ex_valid fresh_app = true /\
   app_after_history [(canonical_order ex_valid, ex_valid)] fresh_app = used_app.
 Proof. exact ex_valid_accepted. Qed.
@@ -124,15 +137,15 @@ Proof. exact ex_valid_accepted. Qed.
 (* valid, accepted, but the first subsystem (zookeeper: default root path on an unreachable ensemble) fails at start time *)
 Example C19_example_start_failure :
   requirements ex_default_root = [] /\
-  start (canonical_order ex_default_root) ex_default_root fresh_app = Returned 1 [CZookeeper] /\
+  start (canonical_order ex_default_root) ex_default_root fresh_app = Returned 1 [CZookeeper] no_listener /\
   config_valid (canonical_order ex_default_root) ex_default_root fresh_app = true.
 Proof. exact ex_default_root_start_failure. Qed.
 
 Example C19_example_invalid :
   requirements ex_bad_regex = [(StorageAllow, 1)] /\
-  start (canonical_order ex_bad_regex) ex_bad_regex fresh_app = Returned 1 nothing_started /\
+  start (canonical_order ex_bad_regex) ex_bad_regex fresh_app = Returned 1 nothing_started no_listener /\
   start (canonical_order ex_bad_regex) ex_bad_regex
-        (app_after_history [(canonical_order ex_valid, ex_valid)] fresh_app) = Returned 1 nothing_started /\
+        (app_after_history [(canonical_order ex_valid, ex_valid)] fresh_app) = Returned 1 nothing_started no_listener /\
   config_valid (canonical_order ex_bad_regex) ex_bad_regex used_app = false /\
   configured (canonical_order ex_bad_regex) ex_bad_regex = [CZookeeper; CStorage].
 Proof. exact ex_bad_regex_refused. Qed.
@@ -140,5 +153,13 @@ Proof. exact ex_bad_regex_refused. Qed.
 Example C19_example_noreset :
   requirements ex_bad_regex <> [] /\
   start_with handler_noreset (canonical_order ex_bad_regex) ex_bad_regex used_app
-    = Returned 0 [CZookeeper; CStorage; CEvaluator; CHttpserver; CNotifier; CCluster; CConsumer].
+    = Returned 0 [CZookeeper; CStorage; CEvaluator; CHttpserver; CNotifier; CCluster; CConsumer] no_listener.
 Proof. exact noreset_handler_accepts_invalid. Qed.
+
+Example C19_example_listening :
+  still_listening ex_valid (coordinators ex_valid) [CZookeeper; CStorage; CEvaluator; CHttpserver] [CZookeeper; CStorage; CEvaluator]
+    = [3] /\
+  still_listening ex_valid (coordinators ex_valid) [CZookeeper; CStorage; CEvaluator; CHttpserver] [CZookeeper; CStorage; CEvaluator; CHttpserver]
+    = no_listener /\
+  listener_names ex_bad_depth = [3].
+Proof. exact listening_while_running. Qed.
